@@ -21,6 +21,16 @@ P = {
   COMMON_NOTE + "reflect.DeepEqual on hash maps is modelled as equality of sorted association lists with nil kept distinct; artifact-name collisions after path cleaning (order-dependent in Go) are outside the model's domain.",
   "Lean 4 proof (interpreter = declarative queue spec) + exhaustive-small-universe/random differential correspondence model vs VerifyArtifacts",
   "DESIGN.md §5 C03"),
+ "C11": (True,
+  "Lean model of cjson.EncodeCanonical (key sorting, the two escapes, integers only) and of the DSSE payload bytes, with a strict RFC 8259 parser in the model; theorems (in progress, see evidence for the list that is checked on this run): the payload parses back to exactly the value set, the canonical form is uniquely readable hence injective, non-integral numbers are refused. Every run compares the model's canonical bytes and payload bytes byte-for-byte with GetSignableRepresentation / SetPayload+Dump of the real library on generated links/layouts with odd strings, in three re-serialisations each, and checks that Go's own JSON decoder and LoadMetadata read the payload back.",
+  COMMON_NOTE + "Numbers in by-products are modelled as exact integers or an opaque non-integral literal (float64 formatting is not modelled; generators stay below 2^53). Invalid UTF-8 is outside the domain.",
+  "Lean 4 proof (parse∘render = id, injectivity) + byte-for-byte differential correspondence of signed bytes",
+  "DESIGN.md §5 C11"),
+ "C12": (True,
+  "Lean model of both loaders, of Dump and of encoding/json's struct decoding over the schema given as data (field names, omitempty, required fields, DisallowUnknownFields, null handling, case folding, duplicate keys); theorems checked on this run are listed in the evidence (schema-level round trip decode∘encode = id and refusal theorems are being proved). Every run loads generated valid files in both wrappers through LoadMetadata and Metablock.Load and every kind of single-point corruption (drop/rename/upper-case/duplicate/retype/nullify/extra key at every member/element, envelope and payload-type corruptions, truncations) through the real library and the model and compares outcome, canonical payload, signatures and three round trips.",
+  COMMON_NOTE + "Byte-level JSON syntax of files is parsed by the model's own strict parser; Go's replacement of invalid UTF-8/lone surrogates and duplicated slice/struct members are outside the modelled domain.",
+  "Lean 4 proof (schema-level decode/encode) + mutation-based differential correspondence of both loaders",
+  "DESIGN.md §5 C12"),
 }
 
 ALL = ["C%02d" % i for i in range(1, 21)]
